@@ -55,14 +55,14 @@ func blocksString(m map[uint32]int) string {
 
 func TestC15(t *testing.T) {
 	rapid.Check(t, func(t *rapid.T) {
-		sch := genSchema(t, SchemaCfg{Key: 1, Merges: true, MinCols: 1, MaxCols: 4, NoLenMerge: KFActive("f15-difflen-merge-reorder")})
+		sch := genSchema(t, SchemaCfg{Key: 1, Merges: true, MinCols: 1, MaxCols: 4})
 		log := &recLogger{}
 		ch := make(commit.Channel, 64)
 		mc := NewMachine("C15", sch, column.Options{Writer: multiLogger{log, ch}})
 		defer mc.Close()
 		defer mc.Guard(t)
 		cfg := TxnCfg{Prop: "C15", MaxSteps: 10, Rollback: true, FailInsert: true, Deletes: true, Inserts: true, Merges: true, OwnUpdates: true, KeyOps: true, Direct: true,
-			NoStoreOnDel: KFActive("f11-store-and-delete-same-txn")}
+			NoStoreOnDel: KFActive("f11-store-and-delete-same-txn"), NoOpAfterLenMerge: KFActive("f15-difflen-merge-reorder")}
 		sc := newStreamChecker()
 		interesting := false
 		// drainCheck compares what the logger got since n0 with the blocks the model says changed.
